@@ -12,7 +12,16 @@ def run(chk):
     if not chk.prepare():
         return
     w = dict(fault=0.25, restart=0.08, known=0.05, pin=0.05, default_idle=0.3, inflight=0.12, quickclose=0.1)
-    simnet.run_netscripts(chk, 24 if quick else 300, [3, 4], lambda r: r.randrange(4, 10), w, "fabric:faults")
+    # in every run: a connection with a long-polling call in flight (either direction) ended in each possible way
+    n3 = {1: (10, None, None), 2: (10, None, None), 3: (10, None, None)}
+    fixed = []
+    for wdir in ((1, 2), (2, 1)):
+        for closer in ([("X", 1, 2)], [("X", 2, 1)], [("R", 1)], [("R", 2)], [("P", 1, 2), ("Q",), ("H", 1, 2)], [("D", 2, 1)]):
+            fixed.append((n3, [("D", 1, 2), ("W",) + wdir] + closer + [("Q",), ("D", 3, 1), ("Q",)]))
+    # ... and a connection ended by its dialer the moment the dial returns
+    for closer in ([("X", 1, 2)], [("R", 1)]):
+        fixed.append((n3, [("D", 1, 2, 2, "now")] + closer + [("Q",), ("D", 2, 1), ("Q",)]))
+    simnet.run_netscripts(chk, 24 if quick else 300, [3, 4], lambda r: r.randrange(4, 10), w, "fabric:faults", fixed=fixed)
     chk.assumptions += ["quinn's idle timeout, keep-alive and close propagation (transport hypothesis of NetModel.Quiesce / Disconnect)",
                         "operations do not overlap (each is followed by a settle time); overlapping dials are C05's subject"]
     if not quick:
